@@ -209,6 +209,22 @@ func NonCanonical(r *rand.Rand) []byte {
 		h[0] = byte(12 + r.UintN(2))
 		h[1] = byte(r.UintN(4))
 		copy(h[2:], gen4.Bytes(r, 32))
+		// link and peer addresses of the kinds that exist: IPv4-mapped, unspecified, link-local made from a MAC, multicast
+		for _, off := range []int{2, 18} {
+			a := h[off : off+16]
+			switch r.IntN(7) {
+			case 0:
+				copy(a, []byte{0, 0, 0, 0, 0, 0, 0, 0, 0, 0, 0xff, 0xff})
+			case 1:
+				clear(a)
+			case 2:
+				copy(a, []byte{0xfe, 0x80, 0, 0, 0, 0, 0, 0, 0x02, 0x11, 0x22, 0xff, 0xfe})
+			case 3:
+				copy(a, []byte{0xff, 0x02, 0, 0, 0, 0, 0, 0, 0, 0, 0, 0, 0, 1, 0})
+			case 4:
+				copy(a, []byte{0, 0, 0, 0, 0, 0, 0, 0, 0, 0, 0, 0}) // IPv4-compatible ::a.b.c.d
+			}
+		}
 		extra := []byte{}
 		if r.IntN(2) == 0 {
 			extra = tlv(18, gen4.Bytes(r, r.IntN(6)))
